@@ -119,19 +119,34 @@ def export(tier, seed, verdict):
                     .replace("MaxTrans = 2", "MaxTrans = %d" % min(maxtrans, 2 if tier != "thorough" else 3))
                     .replace("Grid <- GridA", "Grid <- %s" % grid))
         return V.tlc("MCZoneImpl", p, workers=4, timeout=6 * 3600, heap="4g", tag="mczone-impl")
-    with cf.ThreadPoolExecutor(max_workers=nsh + 2) as ex:
+    def rule():
+        # real-range zones with a DST rule: the 403-year table + 400-year shift design (ZoneImplRule) refines Zone
+        zs = [(n, p) for n, p in tzgen.shipped_zones(V.REPO) if n in ("America/New_York", "Australia/Lord_Howe", "Europe/Dublin", "America/Nuuk")]
+        zs += [(n, p) for n, p in tzgen.write_corpus(os.path.join(cdir, "rulezones"), 1, 0) if "special" in n]
+        zf = os.path.join(cdir, "rulezones.ndjson")
+        with open(zf, "w") as f:
+            for n, p in zs:
+                f.write(json.dumps({"name": n, "bytes": list(open(p, "rb").read())}) + "\n")
+        cfgp = os.path.join(cdir, "mcrule.cfg")
+        V.write_cfg(cfgp, open(os.path.join(V.SPEC, "MCRule.cfg")).read().replace("YearStep = 7", "YearStep = %d" % (1 if tier == "thorough" else 29)))
+        return V.tlc("MCRule", cfgp, env={"ZONES": zf}, workers=6, timeout=6 * 3600, heap="8g", tag="mcrule")
+    with cf.ThreadPoolExecutor(max_workers=nsh + 3) as ex:
         fs = [ex.submit(one, sh) for sh in range(nsh)]
         fsm = ex.submit(small)
         fim = ex.submit(impl)
+        fru = ex.submit(rule)
         rs = [f.result() for f in fs]
         rsm = fsm.result()
         rim = fim.result()
+        rru = fru.result()
     zones = []
     st = {"states": 0, "transitions": 0, "cached": False, "palettes": palettes, "grid": grid, "max_transitions": maxtrans,
-          "invariants_checked_on_spec": ALLINV + ["LoadsAllWellFormed", "ImplBreak", "ImplMake", "ImplTrans (ZoneImpl refines Zone for every hint value)"],
+          "invariants_checked_on_spec": ALLINV + ["LoadsAllWellFormed", "ImplBreak", "ImplMake", "ImplTrans (ZoneImpl refines Zone for every hint value)",
+                                        "MCRule: BreakRefines, MakeRefines (403-year table + 400-year shift refine Zone on real-range DST zones, intermediates fit int64)"],
           "spec_violation": None}
     st["zoneimpl_refinement_states"] = rim.distinct
-    for r in rs + [rsm, rim]:
+    st["rule_table_refinement_states"] = rru.distinct
+    for r in rs + [rsm, rim, rru]:
         st["states"] += r.distinct
         st["transitions"] += r.generated
         if r.verdict_violation:
